@@ -618,7 +618,7 @@ func init() {
 		Real: []string{"dhcp.Server (REQUEST/RELEASE/DECLINE handlers, lease cleanup loop) + dhcp.Pool + nat.Manager + qos.Manager + radius.PolicyManager + ebpf.Loader over real kernel maps + radius.Client.SendAccounting",
 			"pppoe.Server PADT / LCP-terminate / authentication-failure / idle-cleanup paths + IPPool", "pppoe.SessionTeardown + KeepAliveManager wired through their setters", "subscriber.Manager.TerminateSession and its timeout loop"},
 		Stub:         []string{"RADIUS server and transport", "packet connection / raw socket", "XDP program (only the maps exist)", "AddressAllocator behind subscriber.Manager (recording model)"},
-		Rule:         "cases: establish 1-3 sessions up to a generated prefix of the establishment sequence, end each by one termination path and in half of the runs by a second one (sequentially or at the same time); dhcp4 variant: in 6 of 12 runs one kernel map (MAC/VLAN/circuit-id fast-path map or the QoS ingress map) has a single slot so that the control plane's insert for every further session is refused (E2BIG); non-trivial = >=3 handled messages and (a fault fired or >2 context switches); distinct = distinct (case hash, schedule fingerprint)",
+		Rule:         "cases: establish 1-3 sessions up to a generated prefix of the establishment sequence, end each by one termination path and in half of the runs by a second one (sequentially or at the same time); dhcp4 variant: in 6 of 12 runs one kernel map (MAC/VLAN/circuit-id fast-path map or the QoS ingress map) has a single slot so that the control plane's insert for every further session is refused (E2BIG); pppoe-teardown variant: in one run in seven the accounting server is silent for Stop requests, in half of those with RADIUS timeouts above the teardown's cleanup timeout; non-trivial = >=3 handled messages and (a fault fired or >2 context switches); distinct = distinct (case hash, schedule fingerprint)",
 		QuickRuns:    12000,
 		ThoroughRuns: 600000,
 		Assumptions: []string{"kernel maps are created by the harness with the value sizes the Go control plane marshals; the XDP/TC programs are not loaded", "the RADIUS server answers every accounting request",
